@@ -100,6 +100,10 @@ class Enumerator(object):
         else:
             path.conds = canon.simplify(path.conds + [(S.show(vterm), pred)])
 
+    def is_foreach(self, node):
+        return node.get('k') in ('Call', 'MethodCall') and S.norm_path(H.callee_decl(node) or '') in ('std::iter::Iterator::try_for_each', 'std::iter::Iterator::for_each') \
+            and len(H.call_args(node)) == 2 and S.closure_node(H.call_args(node)[1]) is not None and len(S.closure_node(H.call_args(node)[1])['params']) == 1
+
     def helper_target(self, node):
         """A call of a crate-local helper the oracle vocabulary does not know and whose body branches:
         walked path-wise, as if its body stood at the call site."""
@@ -418,6 +422,26 @@ class Enumerator(object):
                     p.value = ('unit',)
                 res.append(p)
             return res
+        if k in ('Call', 'MethodCall') and S.norm_path(H.callee_decl(node) or '') in ('std::iter::Iterator::try_for_each', 'std::iter::Iterator::for_each') \
+                and len(H.call_args(node)) == 2 and S.closure_node(H.call_args(node)[1]) is not None and len(S.closure_node(H.call_args(node)[1])['params']) == 1:
+            # `iter.try_for_each(|x| body)`: read as the loop `for x in iter { body? }`
+            it, cn = H.call_args(node)[0], S.closure_node(H.call_args(node)[1])
+            itt = self.leaf(it, path)
+            itt, item = S.iter_view(itt)
+            if path.effects and path.effects[-1].startswith('std::collections::HashMap::') and path.effects[-1] != S.show(itt) and itt[0] == 'call' and itt[1] == 'std::collections::HashMap::iter':
+                path.effects[-1] = S.show(itt)
+            path.effects.append('for _ in %s {' % S.show(itt))
+            self.ev.bind_pat(cn['params'][0], item, path.env)
+            outs = self.run(cn['body'], path)
+            res = []
+            tryfe = S.norm_path(H.callee_decl(node) or '').endswith('try_for_each')
+            for p in outs:
+                if p.done in ('continue', None, 'break', 'return'):
+                    p.effects.append('}')
+                    p.done = None
+                    p.value = ('call', 'Ok', (('unit',),), ()) if tryfe else ('unit',)
+                res.append(p)
+            return res
         if k in ('Assign',) and self.has_ctl(node['r']):
             out = []
             for p in self.run(node['r'], path):
@@ -429,6 +453,13 @@ class Enumerator(object):
                 if node['l'].get('k') == 'Local':
                     p.env[node['l']['id']] = p.value
                 p.value = ('unit',)
+                out.append(p)
+            return out
+        if k == 'Try' and self.is_foreach(H.peel(node['e'])):
+            out = []
+            for p in self.run(H.peel(node['e']), path):
+                if not p.done:
+                    p.value = ('unit',)
                 out.append(p)
             return out
         if k == 'Try' and self.helper_target(H.peel(node['e'])) is not None and not self.has_ctl(node['e']):
